@@ -25,7 +25,7 @@ sh('ninja -C _build > /dev/null', cwd=wt)
 r1 = sh('sh seed/run_demo.sh', cwd=wt, timeout=3000)
 meta['demo_with_change_rc'] = r1.returncode
 # 2. ctest summary with the change (re-run the full suite ourselves)
-r2 = sh('ctest --test-dir _build -j8 --timeout 900 2>&1 | tail -80', cwd=wt, timeout=7200)
+r2 = sh('ctest --test-dir _build -j8 --timeout 900 2>&1 | tail -120', cwd=wt, timeout=7200)
 passed = None
 for l in r2.stdout.splitlines():
     if 'tests passed' in l:
@@ -34,6 +34,15 @@ failed = [l.split('-')[1].strip().split(' ')[0] for l in r2.stdout.splitlines() 
 base = json.load(open('/root/.vp/BASELINE.json'))
 stable = {s.split('::')[0] for s in base['stable_pass']}
 meta['baseline_tests_failing_with_change'] = sorted(set(failed) & stable)
+# a baseline test that failed once under load is re-run alone (5 times) before it counts
+still = []
+for t in meta['baseline_tests_failing_with_change']:
+    rr = sh("ctest --test-dir _build -R '^%s$' --timeout 900 --repeat until-fail:5 2>&1 | tail -5" % t.replace('/', '.'), cwd=wt, timeout=7200)
+    okl = [l for l in rr.stdout.splitlines() if '100% tests passed' in l]
+    if not okl:
+        still.append(t)
+meta['baseline_tests_failed_once_then_passed_5x_alone'] = sorted(set(meta['baseline_tests_failing_with_change']) - set(still))
+meta['baseline_tests_failing_with_change'] = still
 # 3. without change
 sh('git apply -R seed/patch.diff', cwd=wt)
 sh('ninja -C _build > /dev/null', cwd=wt)
